@@ -1,6 +1,7 @@
 (* C09 -- string literals decode exactly, at every length and alignment. Statements only. *)
 From Coq Require Import List NArith Arith Bool.
 From SonicV Require Import Base.Blocks Spec.Ref Model.SkipStr Model.Inplace Model.TablesDefs Model.TablesOk Gen.Tables Model.EscRoundTrip.
+From SonicV Require Model.InplaceClosed.
 Import ListNotations.
 Local Close Scope N_scope.
 Local Open Scope nat_scope.
@@ -48,3 +49,20 @@ Proof. exact skip_complete. Qed.
 Theorem decode_inverts_escape : forall s fuel rest, length s < fuel ->
   Ref.str_body true fuel (EscRoundTrip.escape s ++ 34%N :: rest) = Some (s, existsb need_spec s, rest).
 Proof. exact decode_escape. Qed.
+
+(* closed over the concrete escape decoder of the reference: every escape form shrinks, the copying
+   decoder is the reference string decoder, so decoding in place yields exactly the reference decoding,
+   behind the read position, with the unread bytes untouched *)
+Theorem every_escape_shrinks : forall l o n, InplaceClosed.esc_strict l = Some (o, n) -> 1 <= n /\ n <= length l /\ length o <= n.
+Proof. exact InplaceClosed.esc_strict_shrinks. Qed.
+Theorem copying_decoder_is_reference : forall fuel l,
+  dec InplaceClosed.esc_strict fuel l = InplaceClosed.proj_dr (Ref.str_body true fuel l).
+Proof. exact InplaceClosed.dec_is_reference. Qed.
+Theorem inplace_decoder_is_reference : forall fuel b0 b src dst out h rest,
+  dst <= src -> skipn src b = skipn src b0 -> length b = length b0 ->
+  Ref.str_body true fuel (skipn src b0) = Some (out, h, rest) ->
+  exists b' src', inplace InplaceClosed.esc_strict fuel b src dst = Done (dst + length out) b' src' /\
+     firstn (dst + length out) b' = firstn dst b ++ out /\
+     skipn src' b' = rest /\ skipn src' b' = skipn src' b0 /\
+     dst + length out < src' /\ length b' = length b0.
+Proof. exact InplaceClosed.inplace_decodes_reference. Qed.
